@@ -18,6 +18,7 @@ type gen struct {
 	seed   int
 	smallPayload int
 	tier string
+	propTag string
 	h2seen map[string]bool
 	lightAny bool // nested builders offer no unknown record (decode-step pre-states)
 }
@@ -36,6 +37,7 @@ func (g *gen) header() {
 	g.p("\t\"google.golang.org/protobuf/proto\"")
 	g.p("\t\"google.golang.org/protobuf/reflect/protoreflect\"")
 	g.p("\t\"google.golang.org/protobuf/runtime/protoiface\"")
+	g.p("\tvhruntime \"github.com/cosmos/cosmos-proto/runtime\"")
 	var imps []string
 	for path := range g.s.Imports {
 		imps = append(imps, path)
@@ -52,6 +54,17 @@ func (g *gen) header() {
 	g.p("var _ protoreflect.Message")
 	g.p("var _ protoiface.Methods")
 	g.p("func vhIdx(p string, i int) string { return p + \".\" + string(rune('0'+i)) }")
+	g.p("")
+	g.p("// the executor replaces runtime.Sov/Soz by verified summaries; this harness proves, on the")
+	g.p("// current tree and for all 2^64 arguments, that the real code equals them")
+	g.p("func VH_%s_SUMMARY() {", g.propTag)
+	g.p("\tx := vhU64(\"x\")")
+	g.p("\tvhSummaries(false)")
+	g.p("\trealSov, realSoz := vhruntime.Sov(x), vhruntime.Soz(x)")
+	g.p("\tvhSummaries(true)")
+	g.p("\tvhAssert(\"sov.summary\", realSov == vhruntime.Sov(x))")
+	g.p("\tvhAssert(\"soz.summary\", realSoz == vhruntime.Soz(x))")
+	g.p("}")
 	g.p("")
 	g.p("// vhLen: symbolic length bound of strings/bytes: large for the field under test, small when nested")
 	g.p("func vhLen(d int) int {")
@@ -365,6 +378,11 @@ func (g *gen) buildField(m *Message, f *Field) {
 		g.p("\t\tkeys = append(keys, k)")
 		for _, s := range g.nestedValue(f.Val, "vhIdx(p+\".v\", i)", "(i+n-1)") {
 			g.p("\t\t%s", s)
+		}
+		if g.tier != "thorough" && f.Val.Kind == "sint32" {
+			// measured: 32-bit zig-zag map values cost z3 ~0.3 s per query (15 min per harness);
+			// the quick tier keeps them in a one-byte window, the thorough tier has the full domain
+			g.p("\t\tvhAssume(v >= -64 && v <= 63)")
 		}
 		g.p("\t\tx.%s[k] = v", f.GoName)
 		g.p("\t}")
@@ -703,6 +721,7 @@ func (g *gen) codecDrivers(m *Message) {
 	g.p("")
 	// C01
 	g.p("func vhC01_%s(x *%s) {", n, n)
+	g.p("\tvhSetLoopBound(400) // the record loop runs once per populated field")
 	g.p("\tmsg := x.ProtoReflect()")
 	g.p("\tout, err := msg.ProtoMethods().Marshal(protoiface.MarshalInput{Message: msg, Flags: vhFlags(\"det\")})")
 	g.p("\tvhAssert(\"marshal.noerr\", err == nil)")
@@ -904,6 +923,7 @@ func (g *gen) harnessUnknown(prop string, m *Message) {
 
 // CodecSource generates the whole harness file for the codec properties.
 func (g *gen) CodecSource(props []string, msgs []*Message, h2 bool, fieldFilter func(m *Message, f *Field) bool) string {
+	g.propTag = props[0]
 	g.header()
 	g.driversOnce()
 	for _, m := range g.s.Msgs {
